@@ -1,0 +1,42 @@
+//go:build verif
+
+// Verification hooks: read-only access to unexported constants, types and
+// helpers for the external verification harness. Compiled only with -tags verif.
+package jwt
+
+// VerifLibVersion is the version number the library writes and accepts at most.
+const VerifLibVersion = libVersion
+
+// VerifLoadClaims exposes loadClaims.
+func VerifLoadClaims(data []byte) (int, Claims, error) { return loadClaims(data) }
+
+// VerifParseHeaders exposes parseHeaders.
+func VerifParseHeaders(s string) (*Header, error) { return parseHeaders(s) }
+
+// VerifCleanSubject exposes cleanSubject.
+func VerifCleanSubject(s string) string { return cleanSubject(s) }
+
+// VerifFormatJwt exposes formatJwt.
+func VerifFormatJwt(kind string, jwtString string) ([]byte, error) { return formatJwt(kind, jwtString) }
+
+// VerifUserConfigRE returns the source of the credentials regular expression.
+func VerifUserConfigRE() string { return userConfigRE.String() }
+
+// VerifHash exposes (*ClaimsData).hash.
+func VerifHash(c *ClaimsData) (string, error) { return c.hash() }
+
+// VerifSerialize exposes serialize.
+func VerifSerialize(v interface{}) (string, error) { return serialize(v) }
+
+// VerifV1Shadows returns zero values of the version-1 shadow structs used by the loaders.
+func VerifV1Shadows() map[string]interface{} {
+	return map[string]interface{}{
+		"operator":   &v1OperatorClaims{},
+		"account":    &v1AccountClaims{},
+		"user":       &v1UserClaims{},
+		"activation": &v1ActivationClaims{},
+	}
+}
+
+// VerifIdentifier returns kind and version as the decoder's identifier sees them.
+func VerifIdentifier() interface{} { return &identifier{} }
